@@ -8,7 +8,9 @@ bind : TLC-generated API histories (BadgerKVGen, -simulate, shaped: up to 3 open
        8, iterators held open across commits / flushes / compactions / GC) replayed against the
        real DB in several DB configurations (value threshold, compression, encryption, in-memory,
        level count: a covered dimension); every Get, iterator item, value and version is compared
-       with the specification's prediction."""
+       with the specification's prediction.  Plus every placement of every store of <= 2 versions over
+       2 keys across 7 physical sources (KVIterGen, managed mode): Get and iterators must not depend
+       on the layout (thorough: also after a compaction)."""
 import os, sys
 sys.path.insert(0, os.path.dirname(os.path.abspath(__file__)))
 import lib_kv as K
@@ -66,9 +68,12 @@ def body(c):
         K.replay(c, sims, conf, c.seed, "sim-8txn-env", keys=tab, collect=stats)
     c.cov["observations_compared"] = {k: v for k, v in stats.items() if k in ("get", "iter", "iterRun")}
     c.cov["configurations"] = confs
-    # 3. true concurrency of the commit pipeline (separate Oracle module)
+    # 3. snapshot reads do not depend on where the versions are stored: every placement of small
+    #    stores over memtables / L0 / L1 / L2 / L3 (also the ones only a GC write-back produces)
+    nlay = K.layout_stage(c, tab, c.seed, "layouts", q, parts=("all",) if q else ("all", "compact"))
+    # 4. true concurrency of the commit pipeline (separate Oracle module)
     K.oracle_stage(c, "C01")
-    c.add_cases(len(sims) * len(confs), set(K.hist_key(h) for h in nontriv), traces=len(sims) * len(confs))
+    c.add_cases(len(sims) * len(confs) + nlay, set(K.hist_key(h) for h in nontriv), traces=len(sims) * len(confs) + nlay)
     c.cov["rule"] = ("histories are behaviours of BadgerKVGen (TLC -simulate, length 30, shaped); a history is non-trivial "
                      "when some transaction reads after a commit by another transaction, an environment step or a "
                      "clock tick fell inside its lifetime; distinct = distinct step sequences; evaluations = history x "
